@@ -7,6 +7,7 @@ import (
 	"context"
 	"fmt"
 	"os"
+	"path/filepath"
 	"runtime"
 	"strings"
 	"sync"
@@ -393,7 +394,8 @@ func c12CtrMain(args []string) error {
 		case "buildfail":
 			// Build that fails in the configuration step (bind mount of a source that does not exist):
 			// the half-built environment must be torn down completely
-			one := func() {
+			// ... or before it (the container root cannot be created: the init already runs by then)
+			one := func(i int) {
 				root, err := os.MkdirTemp("", "verif-c12-bf-")
 				if err != nil {
 					return
@@ -401,16 +403,20 @@ func c12CtrMain(args []string) error {
 				defer os.RemoveAll(root)
 				b := container.Builder{Root: root, Mounts: mount.NewDefaultBuilder().
 					WithBind("/verif-no-such-source-dir", "nowhere", true).WithTmpfs("w", "").Mounts}
+				if i%2 == 1 {
+					b = container.Builder{Root: filepath.Join(root, "no-such-dir"), TmpRoot: "ct-*"}
+				}
 				if e, err := b.Build(); err == nil {
 					e.Destroy()
-					o.Setup = "Build with a missing bind source did not fail"
+					o.Setup = "Build that cannot succeed did not fail"
 				}
 			}
-			one()
+			one(0)
+			one(1)
 			time.Sleep(50 * time.Millisecond)
 			o.Base = sample(nil)
-			for rep := 0; rep < c.Reps; rep++ {
-				one()
+			for rep := 0; rep < c.Reps*2; rep++ {
+				one(rep)
 			}
 			o.End = settle(nil, o.Base)
 		case "build":
